@@ -598,8 +598,9 @@ def c11(a):
     if not a.replay:
         c.add_mc(tlc_mc("MC_Round.tla", "MC_Round.cfg", os.path.join(workdir("C11", False), "mc"), workers=4))
     zoned_part(c, a, binary, "c11")
-    c.rule = ("sp_round / sp_total / sp_cmp events: Span::round (incl. balancing = smallest ns, increment 1), Span::total and "
-              "Span::compare with no reference, the days-are-24-hours marker, civil datetimes and dates (month ends, Feb 29, "
+    c.rule = ("sp_round / sp_total / sp_cmp / sp_add / sp_dur events: Span::round (incl. balancing = smallest ns, increment 1), "
+              "Span::total, Span::compare, Span::checked_add / checked_sub (reference + result must be (reference + a) + b, "
+              "no unit larger than the operands') and Span::to_duration (the exact time to reference + span) with no reference, the days-are-24-hours marker, civil datetimes and dates (month ends, Feb 29, "
               "both range ends) and zoned datetimes at instants within +-2 days of transitions in ~44 zones; spans that meet "
               "month ends, DST days and unit overflow, plus seeded spans up to the unit limits, both signs; every smallest x "
               "largest x mode, legal increments and illegal requests. SpanRel.tla derives the goal from the reference "
